@@ -48,6 +48,10 @@ class C04(F.Spec):
                                                    "iterate", "local", "regok", "local"])
         yield self.scripted("cycle", ["start", "gotip", "dnsok", "connect", "iterate", "iterate", "iterate", "regok", "local", "disconnect", "local",
                                       "recon", "gotip", "dnsok", "connect", "iterate", "iterate", "iterate", "regrefused", "local", "stop", "local", "gotip"])
+        # every result code other than TRUE is a refusal: nothing but the registration on that connection, stop and close
+        for code in [c for c in range(0, 46) if c != 3] + [99, 255]:
+            yield self.scripted("refusal-code-%d" % code, ["start", "gotip", "dnsok", "connect", "iterate", "iterate", "regrefused:%d" % code, "local", "iterate",
+                                                           "local", "stop", "local", "iterate"])
         for i in range(150 if tier == "quick" else 1500):
             yield self.scripted("gen%d" % i, self.walk_events(rng, rng.randint(6, 45)), rng)
         for i in range(20 if tier == "quick" else 150):
@@ -124,8 +128,8 @@ class C04(F.Spec):
                 ops.append("fire iterate")
             elif e == "regok":
                 ops.append("recv " + reg_result(3, rng.choice([120, 60, 10]) if rng else 120).hex())
-            elif e == "regrefused":
-                code = rng.choice([5, 6, 7, 8, 9, 10, 11, 12, 13, 14, 17, 18, 20, 26, 99]) if rng else 5
+            elif e.startswith("regrefused"):
+                code = int(e.split(":")[1]) if ":" in e else (rng.choice([5, 6, 7, 8, 9, 10, 11, 12, 13, 14, 17, 18, 20, 26, 99]) if rng else 5)
                 ops.append("recv " + reg_result(code).hex())
             elif e == "othermsg":
                 ops.append("recv " + ping_result().hex())
